@@ -361,7 +361,7 @@ func (c *Conn) handleControl(ctx context.Context, h header) (err error) {
 	}
 
 	err = fmt.Errorf("received close frame: %w", ce)
-	c.writeClose(ce.Code, ce.Reason)
+	c.writeCloseCtx(ctx, ce.Code, ce.Reason)
 	// We are still inside the read call stack which may include the flate reader.
 	// The owner of readMu releases the read resources once it unlocks.
 	c.closeTransport()
